@@ -503,7 +503,17 @@ fn try_parse_long<I: Iterator<Item = String>>(
     let non_shell_option = NonShellOptionConstructor::from_name(name);
 
     // Parse shell options
-    let shell_option = parse_long(&canonicalize(chars));
+    let mut shell_option = parse_long(&canonicalize(chars));
+
+    // In `--name=value`, the value must not decide whether the abbreviated
+    // name of a non-shell option is also a prefix of shell option names.
+    if non_shell_option.is_some()
+        && value.is_some()
+        && matches!(shell_option, Err(NoSuchOption))
+        && !matches!(parse_long(&canonicalize(name)), Err(NoSuchOption))
+    {
+        shell_option = Err(Ambiguous);
+    }
 
     // Check if the result is unique and return the final result
     match (non_shell_option, shell_option) {
@@ -1331,6 +1341,33 @@ mod tests {
         assert_eq!(
             parse(["yash", "--ver=bose"]),
             Err(Error::AmbiguousLongOption("--ver=bose".to_string())),
+        );
+    }
+
+    #[test]
+    fn ambiguous_long_option_with_value() {
+        // `--p` is a prefix of `--profile` as well as shell options such as
+        // `--pipefail`, whether or not a value follows it.
+        assert_eq!(
+            parse(["yash", "--p", "x"]),
+            Err(Error::AmbiguousLongOption("--p".to_string())),
+        );
+        assert_eq!(
+            parse(["yash", "--p=x"]),
+            Err(Error::AmbiguousLongOption("--p=x".to_string())),
+        );
+        assert_eq!(
+            parse(["yash", "--pr=x"]),
+            Ok(Parse::Run(Run {
+                work: Work {
+                    profile: InitFile::File {
+                        path: "x".to_string()
+                    },
+                    ..Work::default()
+                },
+                arg0: "yash".to_string(),
+                ..Run::default()
+            })),
         );
     }
 
